@@ -11,7 +11,9 @@ from ..engine import cutil
 ID = 'C39'
 TECHNIQUE = ('must-analysis of #define/#undef over the #if tree of the platform blocks; defined()-guard aware scan of every #if/#elif for macros '
              'whose value is read; satisfiability/implication of #if conditions (enumeration over small domains, `defined(X)` tied to X) for every '
-             'prototype/definition pair of a utility section; table agreement for the string-compression switch')
+             'prototype/definition pair of a utility section; table agreement for the string-compression switch; known-bits abstract interpretation of the LZSS '
+             'writer/reader pair (shared with C12); symbolic execution (linear length forms + path constraints) of the C-API variant of a unicode builder against the '
+             'length its PyUnicode_New variant allocates')
 DECIDES = ('(M3a) in ModuleSetupCode.c the branches of the platform selection (#if CYTHON_LIMITED_API / GraalPy / PyPy / CPython) leave the same set of CYTHON_* '
            'feature macros certainly defined on every preprocessor path; (M3b) every CYTHON_* macro whose *value* is read by an #if/#elif in Cython/Utility '
            '(not protected by a defined() guard) is #defined somewhere in Cython/Utility or emitted as a #define by Cython/Compiler/*.py - an undefined '
@@ -19,14 +21,24 @@ DECIDES = ('(M3a) in ModuleSetupCode.c the branches of the platform selection (#
            'in one utility section whose #if conditions can hold together have identical parameter type lists (otherwise that configuration does not compile); '
            '(M2b) where prototype and definition are both conditional, every configuration that activates the prototype activates a definition or a macro of '
            'that name (otherwise the function is declared but missing there); (ALG) Code.compression_algorithms numbers <-> the module chain in '
-           '__Pyx_DecompressString <-> the special cases of the generator (shared with C10e/C12).')
-NOT_DECIDED = ('behavioural equality of the branches selected by a feature macro; C versus C++ semantics; optimisation levels; the semantics-neutral directives '
+           '__Pyx_DecompressString <-> the special cases of the generator (shared with C10e/C12). '
+           '(LZSS-BITS/LZSS-STRUCT, rules of C12 run here under C39 ids) the default/`CYTHON_COMPRESS_STRINGS=90` string table decodes to the bytes the uncompressed table '
+           'holds: for every token form of LZSS.lzss_compress the decoder __pyx_lzss_decompress takes the matching branch and recomputes offset and length (bit fields, '
+           'biases, range guards vs field widths). '
+           '(LEN, sa/rules/sC39.py) a helper that allocates its result with PyUnicode_New(n) under one setting of the feature macros and composes it from C-API calls under '
+           'the other (__Pyx_PyUnicode_BuildFromAscii: CYTHON_USE_UNICODE_INTERNALS / Limited API) returns a string of length n on every path of the composing variant, for '
+           'flag parameters in {0, 1} and all lengths with 0 <= clength <= ulength.')
+NOT_DECIDED = ('behavioural equality of the branches selected by a feature macro beyond the result length of the unicode builder (the characters written, '
+               '__Pyx_PyUnicode_Join whose fallback length depends on the joined values); C versus C++ semantics; optimisation levels; the semantics-neutral directives '
                '(binding, optimize.*, always_allow_keywords, auto_pickle); the text of the emitted `#if (CYTHON_COMPRESS_STRINGS) == n` chain beyond the table '
                '(its #else fallback is emitted from string fragments and is not modelled); M1 of the design (clang -fsyntax-only of assembled translation units '
                'under a macro matrix) is not built: the assembly needs a hand-written prelude and module-state stubs, which would make it a brittle proxy. '
                'Templated sections (Tempita / %-substituted conditions or names) are skipped by M2 and M3b and counted as info.')
 ASSUMPTIONS = ['an identifier that is not #defined evaluates to 0 in #if (C11 6.10.1p4)',
-               'every section of a utility file is emitted as a unit, so its #if groups are balanced within the section']
+               'every section of a utility file is emitted as a unit, so its #if groups are balanced within the section',
+               'C39-LEN: C-API result lengths from the CPython documentation (FromOrdinal 1, Repeat len*n, DecodeASCII n, Concat sum); allocation failures are not explored; '
+               'the contract of the builder is 0 <= clength <= ulength (implied by the in-bounds writes of the PyUnicode_New variant) and 0/1 flags - the stronger guarantee '
+               'of today\'s callers (ulength >= clength + 2 when prepend_sign is set) is not used']
 
 MSC = 'Cython/Utility/ModuleSetupCode.c'
 UTIL = 'Cython/Utility'
@@ -50,6 +62,17 @@ MUTATIONS = [
     ('Cython/Utility/Builtins.c', "__Pyx_HasAttr definition guard: `< 0x030d0000` -> `< 0x030c0000` (prototype keeps the complement of `>= 0x030d0000`)", 'C39-M2b'),
     ('Cython/Compiler/Code.py', "renumber (2, 'bz2') to (4, 'bz2') in compression_algorithms", 'C39-ALG'),
 ]
+MUTATIONS += [   # strengthening round (seeds C39a / C39b): all reported with exit 1
+    ('Cython/LZSS.py', "seed C39a: 2-byte form guard `offset < (1 << 9)` -> `<=`", 'C39-LZSS-BITS LZSS:backref/2-byte:end-offset'),
+    ('Cython/LZSS.py', "`((offset & 0x180) >> 2)` -> `>> 1`", 'C39-LZSS-BITS LZSS:backref/2-byte:end-offset, :consumed'),
+    ('Cython/LZSS.py', "3-byte form guard `offset < (1 << 14)` -> `<=`", 'C39-LZSS-BITS LZSS:backref/3-byte:end-offset'),
+    ('Cython/LZSS.py', "bias `offset -= 0x80` -> `0x7F`", 'C39-LZSS-BITS LZSS:backref/*:end-offset'),
+    ('Cython/Utility/StringTools.c', "seed C39b: fallback `PySequence_Repeat(padding, uoffset - prepend_sign)` -> `uoffset`", 'C39-LEN StringTools.c:__Pyx_PyUnicode_BuildFromAscii'),
+    ('Cython/Utility/StringTools.c', "fallback: `if (uoffset > prepend_sign) {` -> `prepend_sign + 1`", 'C39-LEN StringTools.c:__Pyx_PyUnicode_BuildFromAscii'),
+    ('Cython/Utility/StringTools.c', "fallback: sign concatenated only `if (likely(uval) && sign && padding)`", 'C39-LEN StringTools.c:__Pyx_PyUnicode_BuildFromAscii'),
+    ('Cython/Utility/StringTools.c', "fallback: `PyUnicode_DecodeASCII(chars, clength - 1, NULL)`", 'C39-LEN StringTools.c:__Pyx_PyUnicode_BuildFromAscii'),
+    ('Cython/Utility/StringTools.c', "internals variant: `PyUnicode_New(ulength + 1, 127)`", 'C39-LEN StringTools.c:__Pyx_PyUnicode_BuildFromAscii'),
+]
 PRESERVING = [
     # behaviour-preserving edits, all silent
     (MSC, "`#ifndef CYTHON_USE_TYPE_SPECS` -> `#if !defined(CYTHON_USE_TYPE_SPECS)` in the PyPy block"),
@@ -58,6 +81,11 @@ PRESERVING = [
     ('Cython/Utility/ObjectHandling.c', "rename the parameters of the __Pyx_PyDict_NextRef prototype, `PyObject* dict` spacing, split over two lines"),
     ('Cython/Utility/ObjectHandling.c', "widen the definition guard: `#if !CYTHON_VECTORCALL || defined(CYTHON_FORCE_FASTCALLMETHOD)`"),
     ('Cython/Utility/ObjectHandling.c', "add `#if defined(CYTHON_DEBUG_CALLS) && CYTHON_DEBUG_CALLS` (value test behind a defined() guard)"),
+    # strengthening round: C39-LZSS-* / C39-LEN silent
+    ('Cython/LZSS.py', "`if length_bits < (1 << 5) and offset < (1 << 9):` -> `if offset <= 511 and length_bits < 32:`"),
+    ('Cython/LZSS.py', "`(offset & 0x7F) | 0x80` -> `0x80 | (offset & 127)`"),
+    ('Cython/Utility/StringTools.c', "fallback: repeat also for a count of 1 (`uoffset > prepend_sign + 1` -> `uoffset > prepend_sign`)"),
+    ('Cython/Utility/StringTools.c', "fallback: `if (!(uoffset <= prepend_sign))`, cast on padding_char, temp renamed, count written `-(prepend_sign - uoffset)`"),
 ]
 
 
